@@ -402,7 +402,7 @@ impl Xot {
             return Ok(local_name.to_string());
         }
         // look up the prefix for the namespace
-        if let Some(prefix) = self.prefix_for_namespace(node, namespace) {
+        if let Some(prefix) = self.prefix_for_node_name(node, namespace) {
             let prefix = self.prefix_str(prefix);
             if !prefix.is_empty() {
                 Ok(format!("{}:{}", prefix, local_name))
@@ -512,6 +512,22 @@ impl Xot {
     ///
     /// Returns `None` if no prefix is defined for the namespace.
     pub fn prefix_for_namespace(&self, node: Node, namespace: NamespaceId) -> Option<PrefixId> {
+        self.prefix_for_namespace_with(node, namespace, true)
+    }
+
+    // The prefix to write the name of `node` itself with: the name of an
+    // attribute node cannot use the empty prefix, as an unprefixed attribute
+    // name is in no namespace.
+    pub(crate) fn prefix_for_node_name(&self, node: Node, namespace: NamespaceId) -> Option<PrefixId> {
+        self.prefix_for_namespace_with(node, namespace, !self.is_attribute_node(node))
+    }
+
+    fn prefix_for_namespace_with(
+        &self,
+        node: Node,
+        namespace: NamespaceId,
+        allow_empty_prefix: bool,
+    ) -> Option<PrefixId> {
         let mut seen = HashSet::default();
 
         for ancestor in self.ancestors(node) {
@@ -521,7 +537,7 @@ impl Xot {
                     continue;
                 }
                 seen.insert(key);
-                if *value == namespace {
+                if *value == namespace && (allow_empty_prefix || key != self.empty_prefix_id) {
                     return Some(key);
                 }
             }
